@@ -21,6 +21,13 @@ PROPS = {
                 thorough={"checks": 12000, "shards": 16, "timeout": 2400},
                 technique="property-based testing (rapid): generated histories with a context end at every position, outcome compared with a reference model; bounded-return with a confirmed-hang rule",
                 level_text="reference-model comparison of the outcome of generated histories (quorum / exhaustion / context end, including zero and one targeted node); hangs are confirmed by two goroutine dumps 10 s apart"),
+    "C13": {
+        "pkg": "./props/c13", "overlay": "access", "puppet": True, "level": "exploration", "engine": "pure",
+        "quick": {"checks": 6000, "shards": 4, "timeout": 600},
+        "thorough": {"checks": 60000, "shards": 16, "timeout": 2400},
+        "technique": "property-based testing (rapid) with a reflective message generator (round-trip oracle) and structure-aware frame mutation (never-panics oracle), plus raw frames against a live server; native go fuzzing of the decoder in the thorough tier",
+        "level_text": "round-trip over every registered method in both directions with reflectively generated payloads/metadata; decoder robustness over structure-aware mutations incl. the names of every non-method registry entity; end-to-end over a live server; sampling, not proof",
+    },
     "C14": {
         "pkg": "./props/c14", "overlay": "access", "puppet": True, "level": "exploration", "engine": "pure",
         "quick": {"checks": 20000, "shards": 2, "timeout": 600},
